@@ -698,9 +698,14 @@ func (a *FnAnalysis) Gates() []Gate {
 			delete(inlineBusy, f)
 			_ = k
 			var args []string
+			deps := append([]string(nil), g.Deps...)
 			for _, arg := range call.Call.Args {
 				args = append(args, a.D.Val(arg))
+				if a.Deps != nil {
+					deps = unionStr(deps, a.Deps.Of(arg))
+				}
 			}
+			g.Deps = unionStr(g.Deps, deps)
 			for _, h := range hg {
 				cond := SubstParams(h.Cond, args)
 				key := fmt.Sprintf("%s|%v", cond, h.FailWhen)
@@ -709,7 +714,7 @@ func (a *FnAnalysis) Gates() []Gate {
 					old.Once = old.Once || (g.Once && h.Once)
 					continue
 				}
-				byKey[key] = &Gate{Cond: cond, FailWhen: h.FailWhen, MustPass: g.MustPass && h.MustPass, Once: g.Once && h.Once, Pos: g.Pos, Deps: g.Deps}
+				byKey[key] = &Gate{Cond: cond, FailWhen: h.FailWhen, MustPass: g.MustPass && h.MustPass, Once: g.Once && h.Once, Pos: g.Pos, Deps: deps}
 			}
 		}
 	}
@@ -1034,9 +1039,18 @@ func (a *FnAnalysis) FactTriplesAt(b *ssa.BasicBlock) []Fact {
 // condition itself, a return or a panic — no `break` that lets the function
 // carry on without having looked at the remaining elements.
 func (a *FnAnalysis) FullLoops() []string {
+	n := a.earlyExits(0)
+	return []string{fmt.Sprintf("early-exits<=%d", n)}
+}
+
+// earlyExits counts the edges that leave a loop of the function (or of the
+// small unexported helpers it calls) from its body towards code that carries
+// on — `break`-like exits; leaving through the loop condition, a return or a
+// panic does not count. Loop style (index / range, ascending / descending)
+// does not matter.
+func (a *FnAnalysis) earlyExits(depth int) int {
 	fn := a.Fn
-	set := map[string]bool{}
-	// natural loops, all back edges of one header merged
+	total := 0
 	latches := map[*ssa.BasicBlock][]*ssa.BasicBlock{}
 	for _, b := range fn.Blocks {
 		for _, h := range b.Succs {
@@ -1061,11 +1075,6 @@ func (a *FnAnalysis) FullLoops() []string {
 				}
 			}
 		}
-		ifi, ok := h.Instrs[len(h.Instrs)-1].(*ssa.If)
-		if !ok {
-			continue
-		}
-		exits := 0
 		for x := range inLoop {
 			if x == h {
 				continue
@@ -1077,22 +1086,15 @@ func (a *FnAnalysis) FullLoops() []string {
 				switch y.Instrs[len(y.Instrs)-1].(type) {
 				case *ssa.Return, *ssa.Panic:
 					if len(y.Instrs) <= 12 {
-						continue // error return / panic out of the loop
+						continue
 					}
 				}
-				exits++
+				total++
 			}
 		}
-		key := a.loopKey(ifi.Cond)
-		if exits == 0 {
-			set[key] = true
-		} else {
-			// a loop that already has early exits: their number is recorded
-			set[fmt.Sprintf("%s ~exits=%d", key, exits)] = true
-		}
 	}
-	// loops inside small unexported helpers count for their callers
-	if a.depth < 2 {
+	if depth < 2 {
+		seen := map[*ssa.Function]bool{}
 		for _, b := range fn.Blocks {
 			for _, in := range b.Instrs {
 				ci, ok := in.(ssa.CallInstruction)
@@ -1100,30 +1102,18 @@ func (a *FnAnalysis) FullLoops() []string {
 					continue
 				}
 				f := ci.Common().StaticCallee()
-				if ci.Common().IsInvoke() || !Inlinable(f) || f == fn {
+				if ci.Common().IsInvoke() || !Inlinable(f) || f == fn || seen[f] {
 					continue
 				}
+				seen[f] = true
 				inlineBusy[f] = true
 				ha := Analyze(f, AcceptSpec{})
-				ha.depth = a.depth + 1
-				hl := ha.FullLoops()
+				total += ha.earlyExits(depth + 1)
 				delete(inlineBusy, f)
-				var args []string
-				for _, arg := range ci.Common().Args {
-					args = append(args, a.D.Val(arg))
-				}
-				for _, s := range hl {
-					set[SubstParams(s, args)] = true
-				}
 			}
 		}
 	}
-	var out []string
-	for s := range set {
-		out = append(out, s)
-	}
-	sort.Strings(out)
-	return out
+	return total
 }
 
 // loopKey names a loop by what bounds it — the operand of the header test that
